@@ -214,6 +214,22 @@ def _add_boolarray(id, req, off, nbools, nsym, tier="quick"):
         desc=f"{nbools} bools ({nsym} symbolic, spread over the words), prior memory symbolic: only the addressed DWORDs change")
 
 
+BAREQ = [f"BA[{i}]" for i in range(64)]
+for lo in (0, 16, 32, 48):
+    add(f"boolarray/BA[i]-single-element/{lo}-{lo + 15}", ["BA"], 2,
+        lambda xs: [(BAREQ[xs[0]], xs[1] == 1, "BA", [("bit", 4 * (xs[0] // 32) + (xs[0] % 32) // 8, xs[0] % 8, xs[1] == 1)], None)],
+        val_pre=lambda xs, lo=lo: lo <= xs[0] < lo + 16 and xs[1] in (0, 1), cfg={"writes": 1}, timeout=300,
+        desc=f"one BOOL-array element, index symbolic {lo}..{lo + 15}, value and prior DWORDs symbolic; single-request path")
+    add(f"boolarray/BA[i]+D1-multi-path/{lo}-{lo + 15}", ["BA", "D1"], 3,
+        lambda xs: [("D1", xs[2], "D1", [("int", 0, 4, True, xs[2])], None),
+                    (BAREQ[xs[0]], xs[1] == 1, "BA", [("bit", 4 * (xs[0] // 32) + (xs[0] % 32) // 8, xs[0] % 8, xs[1] == 1)], None)],
+        val_pre=lambda xs, lo=lo: lo <= xs[0] < lo + 16 and xs[1] in (0, 1) and dom(xs[2], 4), cfg={"writes": 2}, timeout=300,
+        desc=f"one BOOL-array element (index symbolic {lo}..{lo + 15}) together with a value write: multi-request path")
+add("boolarray/three-elements-one-call", ["BA"], 3,
+    lambda xs: [("BA[33]", xs[0] == 1, "BA", [("bit", 4, 1, xs[0] == 1)], None), ("BA[34]", xs[1] == 1, "BA", [("bit", 4, 2, xs[1] == 1)], None),
+                ("BA[40]", xs[2] == 1, "BA", [("bit", 5, 0, xs[2] == 1)], None), ("BA[2]", True, "BA", [("bit", 0, 2, True)], None)],
+    val_pre=lambda xs: all(x in (0, 1) for x in xs), cfg={"writes": 2}, timeout=300,
+    desc="four elements in two DWORDs in one call: merged per DWORD into read-modify-write requests")
 _add_boolarray("boolarray/BA[0]{32}", "BA[0]{32}", 0, 32, 3)
 _add_boolarray("boolarray/BA[32]{32}", "BA[32]{32}", 4, 32, 3)
 _add_boolarray("boolarray/BA{64}", "BA{64}", 0, 64, 4)
@@ -245,6 +261,19 @@ def _add_string(ln):
 
 for ln in (0, 1, 3, 8):
     _add_string(ln)
+
+
+def _add_odd_string(tag, cap, ln):
+    def build(xs):
+        cps = list(xs[:ln])
+        return [(tag, mkstr(cps), tag, [("int", 0, 4, True, ln), ("raw", 4, cps + [0] * (8 - ln))], lambda v, cps=cps: len(v) == len(cps) and all(ord(v[i]) == cps[i] for i in range(len(cps))))]
+    add(f"string/{tag}/len{ln}", [tag], max(ln, 1), build, val_pre=lambda xs: all(0 <= x < 256 for x in xs), timeout=300,
+        desc=f"{ln} symbolic characters into a {cap}-character string whose structure is padded to 12 bytes")
+
+
+_add_odd_string("S5", 5, 5)
+_add_odd_string("S5", 5, 2)
+_add_odd_string("S7", 7, 7)
 
 
 # ---- data larger than the connection: fragmented write
